@@ -47,6 +47,8 @@ type c15Case struct {
 	Src    string            `json:"eval_src,omitempty"`
 	Cyclic bool              `json:"must_fail"`
 	Why    string            `json:"why_it_must_fail,omitempty"`
+	// PreEval: the VM evaluated the entry's import once before, against an empty tree
+	PreEval bool `json:"earlier_eval_against_an_empty_tree,omitempty"`
 }
 
 var c15Constraints = []struct {
@@ -275,6 +277,7 @@ func c15Gen(seed int64, idx int) c15Case {
 	case 0:
 		c.Mode = "eval"
 		c.Src = fmt.Sprintf("import %q\nmark(\"EVAL done\")\n", c.Entry)
+		c.PreEval = rng.Chance(1, 3)
 	default:
 		c.Mode = "load-pkg"
 	}
@@ -301,11 +304,18 @@ func c15Cycles() []c15Case {
 				continue
 			}
 			c := c15Case{Files: map[string]string{}, Cyclic: true, Why: "import cycle", Mode: "load-pkg", Entry: "c0"}
+			// every third graph also imports stock packages (more of them than there are script packages)
+			natives := [][]string{nil, nil, {"fmt", "strings", "math", "strconv", "errors"}}[len(res)%3]
 			for i := 0; i < n; i++ {
 				var sb strings.Builder
 				fmt.Fprintf(&sb, "package c%d\n\n", i)
 				for _, j := range adj[i] {
 					fmt.Fprintf(&sb, "import \"c%d\"\n", j)
+				}
+				for k, nat := range natives {
+					if (k+i)%2 == 0 || i == 0 {
+						fmt.Fprintf(&sb, "import \"%s\"\n", nat)
+					}
 				}
 				fmt.Fprintf(&sb, "\nvar V = mark(\"c%d\")\n", i)
 				if i == 0 {
@@ -372,6 +382,15 @@ func c15Run(c c15Case) (log []string, o core.Outcome) {
 	sys := core.MapFS(c.Files)
 	switch c.Mode {
 	case "eval":
+		if c.PreEval {
+			// the same VM evaluated the same import earlier against a tree in which the packages were not written yet
+			// (the import then names nothing); what it finds now is what counts
+			if pre := m.Eval(core.MapFS(map[string]string{}), fmt.Sprintf("import %q\n", c.Entry)); pre.Panic != "" {
+				o = pre
+				return log, o
+			}
+			log = nil
+		}
 		o = m.Eval(sys, c.Src)
 	default:
 		var err error
